@@ -23,7 +23,10 @@ RULE = (
     "a multi-byte field or bit-field unit; distinct by (definition, cfg, input). Stage special-counts: records whose array "
     "count is computed from the data and evaluates to each value the reader might use as an internal marker (and its "
     "neighbours), followed by further records: every prefix shorter than the record raises EOFError, every longer one "
-    "gives the value of the complete input."
+    "gives the value of the complete input. Stage pointer-targets: records with pointers read back to back from one "
+    "stream; a pointer of the first record is dereferenced while the stream fails (short, empty, OSError) at each read "
+    "the dereference makes: it raises (EOFError for a premature end), leaves the stream where it stood, the following "
+    "records and a second dereference are unaffected."
 )
 ASSUMPTIONS = [
     "a short read advances the stream by the delivered bytes only (a parser that ignores it mis-parses and is caught by value comparison)",
@@ -303,6 +306,96 @@ def _run_counts(case, ctx):
         ctx.sample(dict(what0, record_bytes=need, cuts=np_), "special-count")
 
 
+# ---------------------------------------------------------------- failing reads behind a pointer
+
+PTR_DEF = "struct In { uint8 z; uint16 *q; };\nstruct Tgt { uint16 a; uint8 b[3]; };\nstruct Root { uint8 id; uint16 *p; char *s; In in; Tgt *t; uint32 *far; };\n"
+
+
+@st.composite
+def ptr_case(draw):
+    return {"ptrs": True, "ptr": draw(st.sampled_from(["uint16", "uint32", "uint64"])), "endian": draw(st.sampled_from("<>")), "compiled": draw(st.booleans()),
+            "strlen": draw(st.integers(0, 6)), "vals": draw(st.binary(min_size=12, max_size=12)).hex(), "records": draw(st.integers(1, 3))}
+
+
+def _run_ptrs(case, ctx):
+    """Records holding pointers are read one after the other from ONE stream; in between, a pointer of the record just
+    read is dereferenced while the stream fails (short, empty, OSError) at each of the reads the dereference makes. A
+    failed dereference raises, leaves the stream where it stood, and neither the next record nor a later dereference of
+    the same target is affected."""
+    from pbt.drive import import_repo
+
+    m = import_repo()
+    w = {"uint16": 2, "uint32": 4, "uint64": 8}[case["ptr"]]
+    bo = "little" if case["endian"] == "<" else "big"
+    cs = m.cstruct(endian=case["endian"], pointer=case["ptr"])
+    r0 = lib(cs.load, PTR_DEF, compiled=case["compiled"])
+    if isinstance(r0, Err):
+        raise Violation("definition-rejected", f"{r0}", r0.where)
+    vals = bytes.fromhex(case["vals"])
+    nrec = case["records"]
+    rsize = 1 + w + w + 1 + w + w + w
+    heap0 = nrec * rsize
+    v1 = int.from_bytes(vals[0:2], bo) | 1
+    v2 = int.from_bytes(vals[2:4], bo) | 2
+    sbytes = bytes((vals[4] + 3 * i) % 200 + 1 for i in range(case["strlen"])) + b"\x00"
+    tgt = vals[5:7] + vals[7:10]
+    a1, a2 = heap0, heap0 + 2
+    a3 = heap0 + 4
+    a4 = a3 + len(sbytes)
+    end = a4 + len(tgt)
+    P = lambda a: a.to_bytes(w, bo)  # noqa: E731
+    recs = [bytes([0x10 + i]) + P(a1) + P(a3) + bytes([0x20 + i]) + P(a2) + P(a4) + P(end - 2) for i in range(nrec)]
+    image = b"".join(recs) + v1.to_bytes(2, bo) + v2.to_bytes(2, bo) + sbytes + tgt
+    assert len(image) == end
+    want = {"p": v1, "s": sbytes[:-1], "in.q": v2, "t": {"a": int.from_bytes(tgt[0:2], bo), "b": list(tgt[2:5])}}
+    getters = {"p": lambda o: o.p, "s": lambda o: o.s, "in.q": lambda o: getattr(o, "in").q, "t": lambda o: o.t, "far": lambda o: o.far}
+    what0 = {"definition": PTR_DEF, "ptr": case["ptr"], "endian": case["endian"], "compiled": case["compiled"], "image": image.hex(), "records": nrec}
+    n = 0
+    for label, get in getters.items():
+        for kind in ("raise", "short", "empty"):
+            j = 0
+            while True:
+                fs = FaultyStream(image)
+                objs = []
+                failed_at = None
+                for i in range(nrec):
+                    o = lib(cs.Root, fs)
+                    if isinstance(o, Err) or o.id != 0x10 + i or getattr(o, "in").z != 0x20 + i:
+                        raise Violation("residue", f"record {i} read from the shared stream after a failed dereference in record {failed_at}: {o if isinstance(o, Err) else libside.cplain(o)!r}, expected id {0x10 + i:#x}: {dict(what0, pointer=label, fault=kind, read_call_of_dereference=j)}")
+                    objs.append(o)
+                    if i == 0:
+                        before = fs.tell()
+                        fs.fault_at, fs.kind, fs.keep = len(fs.calls) + j, kind, 1
+                        rd = lib(get(o).dereference)
+                        hit = fs.fault is not None
+                        fs.fault_at = None
+                        n += 1
+                        what = dict(what0, pointer=label, fault=kind, read_call_of_dereference=j)
+                        if hit and kind == "raise" and not isinstance(rd, Err):
+                            raise Violation("value-despite-stream-error", f"{what}: dereference returned {libside.cplain(rd)!r}")
+                        if hit and label != "far" and not isinstance(rd, Err) and libside.cplain(rd) != want[label]:
+                            raise Violation("fabricated-value", f"{what}: dereference returned {libside.cplain(rd)!r}, the target is {want[label]!r}")
+                        if label == "far" and not isinstance(rd, Err):
+                            raise Violation("value-from-truncated-input", f"{what}: a uint32 target with two bytes left in the stream gave {rd!r}")
+                        if isinstance(rd, Err) and kind != "raise" and rd.type != "EOFError":
+                            raise Violation("wrong-exception-type", f"{what}: premature end raised {rd} instead of EOFError", rd.where, {"exc": rd.type})
+                        if fs.tell() != before:
+                            raise Violation("residue", f"{what}: the dereference {'failed with ' + str(rd) if isinstance(rd, Err) else 'returned'} and moved the stream from {before} to {fs.tell()}")
+                        if isinstance(rd, Err):
+                            failed_at = 0
+                            ctx.count(f"pointer-target:{kind}:raised:{rd.type}")
+                            if label != "far":
+                                again = lib(get(o).dereference)
+                                if isinstance(again, Err) or libside.cplain(again) != want[label] or fs.tell() != before:
+                                    raise Violation("residue", f"{what}: after the failed dereference a second one gave {again if isinstance(again, Err) else libside.cplain(again)!r} (stream at {fs.tell()}, was {before}), the target is {want[label]!r}")
+                if not hit:
+                    break
+                j += 1
+    ctx.evaluations += n
+    ctx.mark_nontrivial(case)
+    ctx.sample(dict(what0, dereferences_under_fault=n), "pointer-targets")
+
+
 _run_static = run_case
 
 
@@ -311,6 +404,8 @@ def run_case(case, ctx):  # noqa: F811 - dispatch on the case kind
         return _run_dyn(case, ctx)
     if case.get("counts"):
         return _run_counts(case, ctx)
+    if case.get("ptrs"):
+        return _run_ptrs(case, ctx)
     return _run_static(case, ctx)
 
 
@@ -321,5 +416,6 @@ def stages(tier):
     return [
         HypStage("cuts+faults", trunc_case, examples=600 if q else 8000, shards=10 if q else 16),
         HypStage("dynamic-unions", dynunion_case, examples=300 if q else 3000, shards=2 if q else 4),
+        HypStage("pointer-targets", ptr_case, examples=150 if q else 2000, shards=2 if q else 4),
         EnumStage("special-counts", count_cases, shards=2, scope="11 count values (internal markers and their neighbours) x 7 element types x 4 expression forms x both readers x both byte orders, every cut"),
     ]
